@@ -1,6 +1,8 @@
 (** C15 — property theorems only. *)
 From Coq Require Import List ZArith Bool.
-From C33 Require Import C15.Model C15.Spec C15.Proofs C15.ProofsRefute.
+From C33 Require Import C15.Model C15.Spec C15.Proofs C15.ProofsRefute
+  C15.ModelReceipt C15.ModelCoins C15.ModelFlat
+  C15.ProofsReceipt C15.ProofsReceipt2 C15.ProofsReceipt3 C15.ProofsCoins C15.ProofsFlat.
 Import ListNotations.
 Open Scope Z_scope.
 
@@ -54,3 +56,62 @@ Print Assumptions C15_nonneg_refuted.
 Theorem C15_same_account_refuted : ~ same_account_full.
 Proof. exact same_account_refuted. Qed.
 Print Assumptions C15_same_account_refuted.
+
+Theorem C15_keys_consistent : forall miners s o,
+  keys_ok s = true -> keys_ok (fst (step miners s o)) = true.
+Proof. exact step_keys_ok. Qed.
+Print Assumptions C15_keys_consistent.
+
+Theorem C15_receipt_matches_state : forall miners s o s',
+  keys_ok s = true -> step miners s o = (s', ROk) ->
+  let rc := receipt_of miners s o in
+  s' = apply_kv (r_kv rc) s /\ r_ty rc = ty_exec_ok /\
+  Forall2 kv_log_aligned (r_kv rc) (r_logs rc) /\
+  logs_before s rc /\
+  (keys_distinct (map fst (r_kv rc)) = true -> logs_after s' rc).
+Proof. exact receipt_matches_state. Qed.
+Print Assumptions C15_receipt_matches_state.
+
+Theorem C15_receipt_logs_after_partial : forall miners s o s',
+  keys_ok s = true -> step miners s o = (s', ROk) -> rcpt_guard o = true ->
+  keys_distinct (map fst (r_kv (receipt_of miners s o))) = true /\
+  logs_after s' (receipt_of miners s o).
+Proof. exact receipt_logs_after_guarded. Qed.
+Print Assumptions C15_receipt_logs_after_partial.
+
+Theorem C15_receipt_logs_after_refuted : ~ receipt_logs_after_full.
+Proof. exact receipt_logs_after_refuted. Qed.
+Print Assumptions C15_receipt_logs_after_refuted.
+
+Theorem C15_coins_actions_conserve : forall env txs s,
+  ledger_ok s = true -> coins_guard env s txs = true ->
+  let s' := coins_run env s txs in
+  ledger_ok s' = true /\
+  main_total s' = main_total s + coins_granted env s txs /\
+  (forallb (fun tx => negb (t_h tx =? 0)) txs = true -> main_total s' = main_total s) /\
+  (forall cm cf cs, wsum (lw cm cf cs) s'
+     = wsum (lw cm cf cs) s + coins_deltas env (gdelta cm cs) s txs) /\
+  (forall s0 tx, snd (fst (coins_tx env s0 tx)) <> COk -> fst (fst (coins_tx env s0 tx)) = s0).
+Proof. exact coins_actions_conserve_all. Qed.
+Print Assumptions C15_coins_actions_conserve.
+
+Theorem C15_coins_state_from_receipts : forall env txs s, keys_ok s = true ->
+  keys_ok (coins_run env s txs) = true /\
+  coins_run env s txs = apply_kv (coins_kvs env s txs) s.
+Proof. exact coins_state_from_receipts. Qed.
+Print Assumptions C15_coins_state_from_receipts.
+
+Theorem C15_ledger_keys_disjoint : forall l1 l2 k1 k2,
+  lid_ok l1 = true -> lid_ok l2 = true ->
+  flat_key l1 k1 = flat_key l2 k2 -> l1 = l2 /\ key_rest k1 = key_rest k2.
+Proof. exact flat_key_lid_inj. Qed.
+Print Assumptions C15_ledger_keys_disjoint.
+
+Theorem C15_ledgers_independent : forall l' miners h w,
+  lid_ok l' = true ->
+  forallb (fun lo => lid_ok (fst lo)) h = true ->
+  Forall (fun lo => fst lo <> l') h ->
+  (forall k', fget (flat_key l' k') (frun miners w h) = fget (flat_key l' k') w) /\
+  (forall q, fanswer l' (frun miners w h) q = fanswer l' w q).
+Proof. exact history_independent. Qed.
+Print Assumptions C15_ledgers_independent.
